@@ -236,4 +236,182 @@ theorem lastWhere_filter {α} (p q : α → Bool) (xs : List α) (h : ∀ x ∈ 
       rw [ih']
       cases lastWhere p xs <;> simp
 
+/-! ### review additions: fill loops over any encoder (numpy index rule) -/
+
+theorem normIdx_lt {n : Nat} {i : Int} {k : Nat} (h : normIdx n i = some k) : k < n := by
+  unfold normIdx at h
+  split at h
+  · split at h <;> simp at h; omega
+  · split at h <;> simp at h; omega
+
+theorem storeI_ok {α β} (enc : α → Option Int) (acc : List β) (x : α) (v : β) (h : oor enc acc.length x = false) :
+    storeI acc (enc x) v = some (store acc (slot enc acc.length x) v) := by
+  unfold oor at h
+  unfold storeI slot
+  cases he : enc x with
+  | none => simp [store]
+  | some i =>
+    rw [he] at h
+    cases hn : normIdx acc.length i with
+    | none => simp [hn] at h
+    | some k => simp [store, hn]
+
+theorem storeI_bad {α β} (enc : α → Option Int) (acc : List β) (x : α) (v : β) (h : oor enc acc.length x = true) :
+    storeI acc (enc x) v = none := by
+  unfold oor at h
+  unfold storeI
+  cases he : enc x with
+  | none => simp [he] at h
+  | some i =>
+    rw [he] at h
+    cases hn : normIdx acc.length i with
+    | none => simp [hn]
+    | some k => simp [hn] at h
+
+/-- the fill loop raises iff some element's index is out of range, and otherwise is the
+    total fill loop over the normalised indices -/
+theorem fillM_eq {α β} (enc : α → Option Int) (val : α → β) (xs : List α) (init : List β) :
+    xs.foldlM (fun acc x => storeI acc (enc x) (val x)) init =
+      if xs.any (oor enc init.length) then none
+      else some (xs.foldl (fun acc x => store acc (slot enc init.length x) (val x)) init) := by
+  induction xs generalizing init with
+  | nil => simp
+  | cons x xs ih =>
+    simp only [List.foldlM_cons, List.any_cons, List.foldl_cons]
+    by_cases hb : oor enc init.length x = true
+    · rw [storeI_bad enc init x (val x) hb]; simp [hb]
+    · have hb' : oor enc init.length x = false := by simpa using hb
+      rw [storeI_ok enc init x (val x) hb']
+      simp only [Option.bind_eq_bind, Option.bind_some, hb', Bool.false_or]
+      rw [ih, store_length]
+
+
+theorem normIdx_ofNat (n k : Nat) : normIdx n (k : Int) = if k < n then some k else none := by
+  simp [normIdx]
+
+theorem normIdx_none_iff (n : Nat) (i : Int) : normIdx n i = none ↔ i < -(n : Int) ∨ (n : Int) ≤ i := by
+  unfold normIdx
+  split
+  · split <;> simp <;> omega
+  · split <;> simp <;> omega
+
+theorem normIdx_neg (n k : Nat) (h0 : 0 < k) (hk : k ≤ n) : normIdx n (-(k : Int)) = some (n - k) := by
+  unfold normIdx
+  have : ¬ (0 : Int) ≤ -(k : Int) := by omega
+  simp only [this, if_false]
+  have : -(n : Int) ≤ -(k : Int) := by omega
+  simp only [this, if_true]
+  congr 1; omega
+
+
+/-! ### review additions: hash table vs association list; raw Python values -/
+
+theorem hd_eq_ad {ρ ν} (eqv : ρ → ρ → Bool) (h : ρ → Int) (hc : ∀ a b, eqv a b = true → h a = h b)
+    (d : List (ρ × ν)) (k : ρ) :
+    (∀ v, hdSet eqv h d k v = adSet eqv d k v) ∧ hdGet eqv h d k = adGet eqv d k := by
+  induction d with
+  | nil => exact ⟨fun _ => rfl, rfl⟩
+  | cons p d ih =>
+    obtain ⟨k', v'⟩ := p
+    have hcond : (decide (h k' = h k) && eqv k' k) = eqv k' k := by
+      cases he : eqv k' k with
+      | false => simp
+      | true => simp [hc k' k he]
+    refine ⟨fun v => ?_, ?_⟩
+    · simp only [hdSet, adSet, hcond, ih.1]
+    · simp only [hdGet, adGet, hcond, ih.2]
+
+theorem hdBuild_eq_adBuild {ρ} (eqv : ρ → ρ → Bool) (h : ρ → Int) (hc : ∀ a b, eqv a b = true → h a = h b)
+    (d : List (ρ × Nat)) (i : Nat) (ks : List ρ) : hdBuild eqv h d i ks = adBuild eqv d i ks := by
+  induction ks generalizing d i with
+  | nil => rfl
+  | cons k ks ih => simp only [hdBuild, adBuild, (hd_eq_ad eqv h hc d k).1, ih]
+
+theorem adSet_eq_dictSet {κ ν} [DecidableEq κ] (d : List (κ × ν)) (k : κ) (v : ν) :
+    adSet (fun a b => decide (a = b)) d k v = dictSet d k v := by
+  induction d with
+  | nil => rfl
+  | cons p d ih => obtain ⟨k', v'⟩ := p; simp only [adSet, dictSet, decide_eq_true_eq, ih]
+
+theorem adGet_eq_dictGet {κ ν} [DecidableEq κ] (d : List (κ × ν)) (k : κ) :
+    adGet (fun a b => decide (a = b)) d k = dictGet d k := by
+  induction d with
+  | nil => rfl
+  | cons p d ih => obtain ⟨k', v'⟩ := p; simp only [adGet, dictGet, decide_eq_true_eq, ih]
+
+theorem adBuild_eq_buildFrom (d : List ((Term × String) × Nat)) (i : Nat) (ts : List Tag) :
+    adBuild (fun a b => decide (a = b)) d i (ts.map key) = buildFrom d i ts := by
+  induction ts generalizing d i with
+  | nil => rfl
+  | cons t ts ih => simp only [List.map_cons, adBuild, buildFrom, adSet_eq_dictSet, ih]
+
+mutual
+theorem pybeq_canon : ∀ (a b : PyVal), PyVal.beq a b = Val.beq a.canon b.canon
+  | .none, b => by cases b <;> simp [PyVal.beq, PyVal.canon, Val.beq]
+  | .bool x, b => by cases b <;> simp [PyVal.beq, PyVal.canon, Val.beq]
+  | .str x, b => by cases b <;> simp [PyVal.beq, PyVal.canon, Val.beq]
+  | .int x, b => by
+    cases b <;> simp [PyVal.beq, PyVal.canon, Val.beq]
+    rename_i n
+    by_cases h : x = n
+    · simp [h]
+    · have : ¬ (x : Rat) = (n : Rat) := fun e => h (Rat.intCast_inj.mp e)
+      rw [beq_eq_false_iff_ne.mpr h, beq_eq_false_iff_ne.mpr this]
+  | .float x _, b => by cases b <;> simp [PyVal.beq, PyVal.canon, Val.beq]
+  | .list xs, b => by
+    cases b <;> simp [PyVal.beq, PyVal.canon, Val.beq]
+    exact pybeqList_canon xs _
+  | .tuple xs, b => by
+    cases b <;> simp [PyVal.beq, PyVal.canon, Val.beq]
+    exact pybeqList_canon xs _
+  | .obj c n xs, b => by
+    cases b <;> simp [PyVal.beq, PyVal.canon, Val.beq]
+    rw [pybeqList_canon xs _]
+theorem pybeqList_canon : ∀ (a b : List PyVal), PyVal.beqList a b = Val.beqList (PyVal.canon.canonList a) (PyVal.canon.canonList b)
+  | [], b => by cases b <;> simp [PyVal.beqList, PyVal.canon.canonList, Val.beqList]
+  | x :: xs, b => by
+    cases b with
+    | nil => simp [PyVal.beqList, PyVal.canon.canonList, Val.beqList]
+    | cons y ys => simp [PyVal.beqList, PyVal.canon.canonList, Val.beqList, pybeq_canon x y, pybeqList_canon xs ys]
+end
+
+mutual
+theorem pyhash_respects (hf : String → Option (List String)) (H : PyHasher) (hfi : ∀ n : Int, H.float n = H.int n) :
+    ∀ (a b : PyVal), PyVal.beq a b = true → pyHash hf H a = pyHash hf H b
+  | .none, b => by cases b <;> simp [PyVal.beq, pyHash]
+  | .bool x, b => by
+    cases b <;> simp [PyVal.beq, pyHash]
+    intro h; rw [h]
+  | .str x, b => by
+    cases b <;> simp [PyVal.beq, pyHash]
+    intro h; rw [h]
+  | .int x, b => by
+    cases b <;> simp [PyVal.beq, pyHash]
+    · intro h; rw [h]
+    · intro h; rw [← h, hfi]
+  | .float x _, b => by
+    cases b <;> simp [PyVal.beq, pyHash]
+    · intro h; rw [h, hfi]
+    · intro h; rw [h]
+  | .list xs, b => by cases b <;> simp [PyVal.beq, pyHash]
+  | .tuple xs, b => by
+    cases b <;> simp [PyVal.beq, pyHash]
+    intro h; rw [pyhashList_respects hf H hfi xs _ h]
+  | .obj c n xs, b => by
+    cases b <;> simp [PyVal.beq, pyHash]
+    intro h1 h2 h3
+    subst h1; subst h2
+    rw [pyhashList_respects hf H hfi xs _ h3]
+theorem pyhashList_respects (hf : String → Option (List String)) (H : PyHasher) (hfi : ∀ n : Int, H.float n = H.int n) :
+    ∀ (a b : List PyVal), PyVal.beqList a b = true → pyHashList hf H a = pyHashList hf H b
+  | [], b => by cases b <;> simp [PyVal.beqList, pyHashList]
+  | x :: xs, b => by
+    cases b with
+    | nil => simp [PyVal.beqList]
+    | cons y ys =>
+      simp only [PyVal.beqList, Bool.and_eq_true, pyHashList, List.cons.injEq]
+      exact fun ⟨h1, h2⟩ => ⟨pyhash_respects hf H hfi x y h1, pyhashList_respects hf H hfi xs ys h2⟩
+end
+
+
 end SE.Proofs.Lemmas.Encoding
